@@ -1,5 +1,6 @@
 import CoolerModel.Model.Balance
 import CoolerModel.Props.C10IC
+import CoolerModel.Props.C10Mad
 import Mathlib.Algebra.BigOperators.Group.List.Basic
 import Mathlib.Algebra.Order.BigOperators.Group.List
 import Mathlib.Algebra.Order.Field.Rat
